@@ -48,11 +48,11 @@ W2P == {W2(p, g) : p \in PS, g \in {0, 1}}
 NoW2 == [on |-> FALSE, par |-> -1, name |-> "", flag |-> FALSE, val |-> 0]
 Kind(s) == IF s \in GS THEN "G" ELSE IF s \in OS THEN "O" ELSE IF s \in DS THEN "D" ELSE "R"
 
-NoMem  == [par |-> -1, name |-> "", flag |-> FALSE, val |-> 0, meta |-> 0]
-NoNode == [on |-> FALSE, name |-> "", flag |-> FALSE, val |-> 0, meta |-> 0]
+NoMem  == [par |-> -1, name |-> "", flag |-> FALSE, val |-> 0, meta |-> 0, ty |-> 0]
+NoNode == [on |-> FALSE, name |-> "", flag |-> FALSE, val |-> 0, meta |-> 0, ty |-> 0]
 NoPG   == [owner |-> -1, name |-> "", props |-> {}]
 Live(s) == mem[s].par # -1                      \* a Python object for this uid exists
-Node(s) == [on |-> TRUE, name |-> mem[s].name, flag |-> mem[s].flag, val |-> mem[s].val, meta |-> mem[s].meta]
+Node(s) == [on |-> TRUE, name |-> mem[s].name, flag |-> mem[s].flag, val |-> mem[s].val, meta |-> mem[s].meta, ty |-> mem[s].ty]
 
 \* ======================= reachability
 RECURSIVE Down(_, _)
@@ -129,13 +129,21 @@ Init ==
     /\ last = [act |-> "Init", args |-> [x |-> 0], out |-> "ok", foot |-> {}]
 
 \* ======================= creation
+\* data types: every data set created by add_data gets a type of its own (data_type.py find_or_create without uid);
+\* copies inside the workspace share the type of their source; Data.entity_type can be re-assigned (SetType).
+\* ty is a token naming the type (0: groups, objects and the special children, whose types are fixed by their class);
+\* a new data takes the lowest token no live or stored data uses.
+NewTy(s, n) ==
+    IF s \notin DS \/ n \in {"Visual Parameters", "UserComments", "file.dat"} THEN 0
+    ELSE Lowest({t \in 1..ND : \A x \in DS : mem[x].ty # t /\ fnode[x].ty # t})
+
 \* Workspace.create_entity -> save_entity -> H5Writer.write_entity / write_to_parent
 \* (workspace.py:434-480,1300-1331; h5_writer.py:214-248,686-752,943-988)
 Birth(s, p, n, v) ==
-    /\ mem' = [mem EXCEPT ![s] = [par |-> p, name |-> n, flag |-> TRUE, val |-> v, meta |-> 0]]
+    /\ mem' = [mem EXCEPT ![s] = [par |-> p, name |-> n, flag |-> TRUE, val |-> v, meta |-> 0, ty |-> NewTy(s, n)]]
     /\ kids' = [kids EXCEPT ![p] = @ \cup {s}]
     /\ reg' = [reg EXCEPT ![s] = "live"]
-    /\ fnode' = [fnode EXCEPT ![s] = [on |-> TRUE, name |-> n, flag |-> TRUE, val |-> v, meta |-> 0]]
+    /\ fnode' = [fnode EXCEPT ![s] = [on |-> TRUE, name |-> n, flag |-> TRUE, val |-> v, meta |-> 0, ty |-> NewTy(s, n)]]
     /\ flink' = flink \cup {<<p, s>>}
     /\ fopt' = [fopt EXCEPT ![s] = TRUE]
 
@@ -165,7 +173,7 @@ AddData(o, n, v) ==                                \* ObjectBase.add_data (objec
 CreateDeferred(p, n) ==
     /\ Do("CreateDeferred") /\ Writable /\ p \in Att \cap ({Root} \cup GS) /\ p \notin dirty /\ FreeSet(GS) # {} /\ dirty = {}
     /\ LET s == Lowest(FreeSet(GS)) IN
-         /\ mem' = [mem EXCEPT ![s] = [par |-> p, name |-> n, flag |-> TRUE, val |-> 0, meta |-> 0]]
+         /\ mem' = [mem EXCEPT ![s] = [par |-> p, name |-> n, flag |-> TRUE, val |-> 0, meta |-> 0, ty |-> 0]]
          /\ kids' = [kids EXCEPT ![p] = @ \cup {s}]
          /\ reg' = [reg EXCEPT ![s] = "live"]
          /\ dirty' = dirty \cup {s}
@@ -246,6 +254,17 @@ SetVal(d, v) ==                                    \* Data.values setter (data/d
     /\ Ok("SetVal", [s |-> d, v |-> v], {d})
     /\ UNCHANGED <<kids, pg, reg, flink, fpg, held, mode, Aux>>
 
+\* Data.entity_type setter (data/data.py:232-235): the data joins the type of another data set; the Type link of its
+\* node is replaced (h5_writer.py update_field "entity_type").  Nothing else may change - in particular the type it
+\* leaves stays listed as long as another data set uses it.
+SetType(d, e) ==
+    /\ Do("SetType") /\ Writable /\ d \in Att \cap DS /\ e \in Att \cap DS /\ d # e /\ {d, e} \cap dirty = {}
+    /\ ~Special(mem[d].name) /\ ~Special(mem[e].name) /\ mem[d].ty # mem[e].ty
+    /\ mem' = [mem EXCEPT ![d].ty = mem[e].ty]
+    /\ fnode' = [fnode EXCEPT ![d].ty = mem[e].ty]
+    /\ Ok("SetType", [s |-> d, e |-> e], {d})
+    /\ UNCHANGED <<kids, pg, reg, fpg, flink, held, mode, Aux>>
+
 \* Entity.metadata setter (entity.py:229-243): a dictionary stored with the entity (groups and objects)
 SetMeta(s, v) ==
     /\ Do("SetMeta") /\ Writable /\ s \in Att \cap (GS \cup OS) /\ mem[s].meta # v /\ s \notin dirty
@@ -285,10 +304,10 @@ AddDataFails(o, n) ==
     /\ Do("AddDataFails") /\ Writable /\ o \in Att \cap OS /\ o \notin dirty /\ FreeSet(DS) # {} /\ dirty = {}
     /\ LET s == Lowest(FreeSet(DS)) IN
          \* the entity keeps the values it was given in memory (token 1); the node has none (token 0)
-         /\ mem' = [mem EXCEPT ![s] = [par |-> o, name |-> n, flag |-> TRUE, val |-> 1, meta |-> 0]]
+         /\ mem' = [mem EXCEPT ![s] = [par |-> o, name |-> n, flag |-> TRUE, val |-> 1, meta |-> 0, ty |-> NewTy(s, n)]]
          /\ kids' = [kids EXCEPT ![o] = @ \cup {s}]
          /\ reg' = [reg EXCEPT ![s] = "live"]
-         /\ fnode' = [fnode EXCEPT ![s] = [on |-> TRUE, name |-> n, flag |-> TRUE, val |-> 0, meta |-> 0]]
+         /\ fnode' = [fnode EXCEPT ![s] = [on |-> TRUE, name |-> n, flag |-> TRUE, val |-> 0, meta |-> 0, ty |-> NewTy(s, n)]]
          /\ fopt' = [fopt EXCEPT ![s] = TRUE]
          /\ dirty' = dirty \cup {s}
          /\ last' = [act |-> "AddDataFails", args |-> [s |-> s, p |-> o, n |-> n], out |-> "ValueError", foot |-> {s}]
@@ -528,7 +547,7 @@ Copy(s, p, deep) ==
 \* copy into ANOTHER workspace (workspace.py:288-292,310-339): every copied entity and property group keeps its
 \* identifier when that identifier is free in the target, otherwise it gets a fresh one; the source is untouched
 Copy2(s, deep) ==
-    /\ Do("Copy2") /\ Writable /\ s \in Att \cap (GS \cup OS) /\ Sub(s) \cap dirty = {}
+    /\ Do("Copy2") /\ mode # "closed" /\ s \in Att \cap (GS \cup OS) /\ Sub(s) \cap dirty = {}     \* the source may be read-only
     /\ LET S == IF deep THEN Sub(s) ELSE {s}
            SP == IF deep THEN {q \in PS : pg[q].owner \in S} ELSE {}
            gen(x) == IF ~w2[W2(x, 0)].on THEN 0 ELSE 1
@@ -549,6 +568,17 @@ Copy2(s, deep) ==
                                  ELSE w2pg[r]]
        /\ Ok("Copy2", [s |-> s, deep |-> deep, map |-> [x \in S |-> t(x)], pmap |-> [q \in SP |-> tp(q)]], {})
     /\ UNCHANGED <<mem, kids, pg, reg, fnode, flink, fpg, held, mode, dirty, fopt, saved>>
+
+\* a single data set copied under an object of the second workspace (data/data.py copy with a parent elsewhere):
+\* afterwards its identifier is taken there while the identifier of its source object may still be free
+Copy2Data(d, y) ==
+    /\ Do("Copy2Data") /\ mode # "closed" /\ d \in Att \cap DS /\ d \notin dirty /\ ~Special(mem[d].name)
+    /\ y \in W2E /\ w2[y].on /\ \E o \in OS, g \in {0, 1} : y = W2(o, g)
+    /\ LET t == W2(d, IF ~w2[W2(d, 0)].on THEN 0 ELSE 1) IN
+       /\ ~w2[t].on
+       /\ w2' = [w2 EXCEPT ![t] = [on |-> TRUE, par |-> y, name |-> mem[d].name, flag |-> mem[d].flag, val |-> mem[d].val]]
+       /\ Ok("Copy2Data", [s |-> d, y |-> y, t |-> t], {})
+    /\ UNCHANGED <<mem, kids, pg, reg, fnode, flink, fpg, held, mode, dirty, fopt, saved, w2pg>>
 
 RECURSIVE W2Down(_, _)
 W2Down(front, seen) ==
@@ -595,7 +625,7 @@ LoadOf(fn, fl, fg) ==
     LET R == FDownL(fl, {Root}, {Root}) IN
     [mem  |-> [s \in ES |-> IF s \in R /\ fn[s].on
                              THEN [par |-> (CHOOSE q \in Cont : <<q, s>> \in fl /\ q \in R),
-                                   name |-> fn[s].name, flag |-> fn[s].flag, val |-> fn[s].val, meta |-> fn[s].meta]
+                                   name |-> fn[s].name, flag |-> fn[s].flag, val |-> fn[s].val, meta |-> fn[s].meta, ty |-> fn[s].ty]
                              ELSE NoMem],
      kids |-> [c \in Cont |-> IF c \in R THEN {l[2] : l \in {x \in fl : x[1] = c}} ELSE {}],
      pg   |-> [p \in PS |-> IF fg[p].owner \in R \ {Root} THEN fg[p] ELSE NoPG],
@@ -701,6 +731,8 @@ Step ==
     \/ \E op \in ClosedOps : CallClosed(op)
     \/ \E s \in GS \cup OS : RemoveBlocked(s)
     \/ OpenAgain
+    \/ \E d \in DS, e \in DS : SetType(d, e)
+    \/ \E d \in DS, y \in W2E : Copy2Data(d, y)
 
 Next == Step /\ InordUpdate
 Spec == Init /\ [][Next]_vars
@@ -710,7 +742,7 @@ DepthBound == TLCGet("level") <= MaxDepth
 \* --- C01: what a fresh reader would load equals what the live workspace shows
 LoadTree == [s \in ES |-> IF s \in FReach /\ fnode[s].on
                           THEN [par |-> (CHOOSE q \in Cont : <<q, s>> \in flink /\ q \in FReach),
-                                name |-> fnode[s].name, flag |-> fnode[s].flag, val |-> fnode[s].val, meta |-> fnode[s].meta]
+                                name |-> fnode[s].name, flag |-> fnode[s].flag, val |-> fnode[s].val, meta |-> fnode[s].meta, ty |-> fnode[s].ty]
                           ELSE NoMem]
 LiveTree == [s \in ES |-> IF s \in Att THEN mem[s] ELSE NoMem]
 LoadPG == [p \in PS |-> IF fpg[p].owner \in FReach THEN fpg[p] ELSE NoPG]
